@@ -492,6 +492,23 @@ func c12Exec(c fw.Case) *fw.Result {
 			}
 		}
 		c12Session(res, ins, gen.New(c.Seed, "c12session"))
+	case "wide":
+		// field widths of an update: 4097-70000 child positions, updates on both sides of powers
+		// of two, versions beyond 16 bits, instants 2^36 s apart, sub-second ties
+		r := gen.New(c.Seed, "c12wide")
+		reg := hist.Commit
+		if c.Int("stamp") == 1 {
+			reg = hist.Stamp
+		}
+		h := hist.Wide(r, c.Int("way") == 1, reg, int(c.Int("positions")))
+		kind := "rel"
+		if h.Way {
+			kind = "way"
+		}
+		c12Session(res, []c12Input{{h: h, id: fmt.Sprintf("%x-w", c.Seed), enumKey: fmt.Sprintf("wide/%s/%s/positions=%d", kind, reg, len(h.Parents[0].Refs))}}, nil)
+		res.Add("wide_inputs", 1)
+		res.SetMax("child_positions_per_parent", int64(len(h.Parents[0].Refs)))
+		res.Sample = map[string]any{"shape": h.Shape(), "positions": len(h.Parents[0].Refs), "children": len(h.Children)}
 	case "big":
 		// parent versions with 100-2000 updates
 		r := gen.New(c.Seed, "c12big")
@@ -560,6 +577,17 @@ func c12Cases(tier string, seed uint64) []fw.Case {
 			c.P["target"] = targets[(4+i)%len(targets)]
 		}
 		cs = append(cs, c)
+	}
+	// wide parents (seed independent sizes; the random placement part depends on the seed)
+	wide := []int64{4097, 4200, 8193, 16385, 33000, 65537, 65600, 70000}
+	if tier == "thorough" {
+		wide = append(wide, 4098, 5000, 8192, 12289, 20000, 32769, 40000, 50000, 61440, 65535, 65536, 65538, 66000, 69633)
+	}
+	for i, n := range wide {
+		cs = append(cs, fw.Case{Kind: "wide", Seed: gen.Sub(seed, "c12wide", i), P: map[string]int64{"positions": n, "way": 0, "stamp": int64(i % 2)}})
+		if i%3 == 0 { // OSM caps ways at 2000 nodes; the library does not, so ways are tried too
+			cs = append(cs, fw.Case{Kind: "wide", Seed: gen.Sub(seed, "c12widew", i), P: map[string]int64{"positions": n, "way": 1, "stamp": int64((i + 1) % 2)}})
+		}
 	}
 	if tier == "thorough" {
 		cs = append(cs, fw.Case{Kind: "polygon", Variant: "race", Seed: gen.Sub(seed, "c12poly-race", 0), P: map[string]int64{"n": perPoly, "shift": 0}})
